@@ -114,7 +114,7 @@ NoReq == [t |-> "N"]
 
 Worker0(ck, prev) ==
   [pc |-> "recv", files |-> <<[ck |-> ck, prev |-> prev]>>, batch |-> <<>>, nf |-> NoReq,
-   bi |-> 0, res |-> "ok", done |-> 0]
+   bi |-> 0, res |-> "ok", done |-> 0, sf |-> FALSE, defer |-> <<>>]
 
 Down == [up |-> FALSE, fs |-> <<>>, cfg |-> [mr |-> -1, ms |-> -1, ci |-> -1, cc |-> -1, rb |-> -1, tr |-> TRUE]]
 
@@ -347,7 +347,7 @@ WStep(s, fault) ==
          LET ck == w.files[1].ck
              j == FsIdx(s.fs, ck)
          IN IF fault
-            THEN GotoCb(s, [w EXCEPT !.res = "err"], 1, <<EvFs("w", "fdatasync", ck, 0, 0, -5)>>)
+            THEN GotoCb(s, [w EXCEPT !.res = "err", !.sf = TRUE], 1, <<EvFs("w", "fdatasync", ck, 0, 0, -5)>>)
             ELSE GotoSync([s EXCEPT !.fs[j].dur = Len(s.fs[j].recs)], [w EXCEPT !.files = Tail(@)],
                           <<EvFs("w", "fdatasync", ck, 0, 0, 0)>>)
     [] w.pc = "set_ev" ->
@@ -356,26 +356,28 @@ WStep(s, fault) ==
          LET ck == w.files[1].ck
              j == FsIdx(s.fs, ck)
          IN IF fault
-            THEN GotoCb(s, [w EXCEPT !.res = "err"], 1, <<EvFs("w", "fdatasync", ck, 0, 0, -5)>>)
-            ELSE GotoCb([s EXCEPT !.fs[j].dur = Len(s.fs[j].recs)], [w EXCEPT !.res = "ok"], 1,
+            THEN GotoCb(s, [w EXCEPT !.res = "err", !.sf = TRUE], 1, <<EvFs("w", "fdatasync", ck, 0, 0, -5)>>)
+            ELSE GotoCb([s EXCEPT !.fs[j].dur = Len(s.fs[j].recs)], [w EXCEPT !.res = "ok", !.sf = FALSE], 1,
                         <<EvFs("w", "fdatasync", ck, 0, 0, 0)>>)
     [] w.pc = "cb" ->
          GotoCb(s, w, w.bi + 1, <<[e |-> "cb", fid |-> w.batch[w.bi].fid, ok |-> w.res = "ok", t |-> "w", seq |-> 0]>>)
     [] w.pc = "nf" ->
          IF w.nf.t = "A"
          THEN GotoDone(s, [w EXCEPT !.files = Append(@, [ck |-> w.nf.ck, prev |-> w.nf.prev])], <<>>)
-         ELSE IF w.nf.cks = <<>> THEN GotoDone(s, w, <<>>)
-              ELSE WNext(s, [w EXCEPT !.pc = "unlink", !.bi = 1], <<>>, At("unlink", 0))
+         ELSE \* (fix 6101313) removals requested after a failed sync are deferred until a sync has succeeded
+              LET w1 == [w EXCEPT !.defer = @ \o w.nf.cks] IN
+              IF w1.defer = <<>> \/ w1.sf THEN GotoDone(s, w1, <<>>)
+              ELSE WNext(s, [w1 EXCEPT !.pc = "unlink", !.bi = 1], <<>>, At("unlink", 0))
     [] w.pc = "unlink" ->
-         LET ck == w.nf.cks[w.bi]
+         LET ck == w.defer[w.bi]
              j == FsIdx(s.fs, ck)
          IN IF fault
             THEN WNext(s, [w EXCEPT !.pc = "exit"], <<EvFs("w", "unlink", ck, 0, 0, -5), EvPt("exit", 1)>>, At("exit", 1))
             ELSE LET s1 == [s EXCEPT !.fs[j].linked = FALSE]
                      ev1 == <<EvFs("w", "unlink", ck, 0, 0, 0)>>
-                 IN IF w.bi < Len(w.nf.cks)
+                 IN IF w.bi < Len(w.defer)
                     THEN WNext(s1, [w EXCEPT !.bi = @ + 1], ev1, At("unlink", 0))
-                    ELSE GotoDone(s1, w, ev1)
+                    ELSE GotoDone(s1, [w EXCEPT !.defer = <<>>], ev1)
     [] w.pc = "done" -> Arrive(s, [w EXCEPT !.res = "ok"], <<>>, "recv", 0)
 
 \* a worker step is possible unless the worker waits on an empty open channel or has quit
